@@ -41,7 +41,7 @@ SEARCH_CFG = "SPECIFICATION Spec\nINVARIANT Emit\n"
 
 def search_jobs(tier, families=None, with_at=False, budget_scale=1.0):
     """(family, shard) TLC jobs of MC_Search for this tier and seed."""
-    s = vlib.seed()
+    s = vlib.shard_seed()
     jobs = []
     for fam, (nsh, qb, ql, tb, tl) in FAMILIES.items():
         if families and fam not in families:
@@ -78,8 +78,8 @@ def run_search_family(prop, tier, props_arg, level="model_checking", families=No
 
         def mk(fam, consts, i, mod, sub):
             def run():
-                out = os.path.join(work, f"tlc_{i}.out")
-                r = vlib.run_tlc(mod, consts, SEARCH_CFG, out, workers=4, timeout=3000)
+                r = vlib.run_tlc_cached(mod, consts, SEARCH_CFG, workers=4, timeout=3000)
+                out = r.outfile
                 if r.error or r.violation:
                     return (fam, consts, r, None, None)
                 rp = os.path.join(work, f"rep_{i}.json")
@@ -93,7 +93,6 @@ def run_search_family(prop, tier, props_arg, level="model_checking", families=No
                         stage_results.append(per_output(vh, work, out, i, fam))
                     except Machinery as e:
                         stage_results.append({"machinery": [str(e)]})
-                os.remove(out)
                 if p.returncode != 0:
                     r.error = f"harness exit {p.returncode}: {p.stderr[-2000:]}"
                     return (fam, consts, r, None, None)
@@ -161,6 +160,10 @@ def run_search_family(prop, tier, props_arg, level="model_checking", families=No
             "spec_gap_samples": gaps[:10], "patterns_by_strategy": agg["by_strategy"], "failing_calls_by_strategy": agg["fail_by_strategy"],
             "patterns_by_family": fams, "failing_calls_total": total, "tlc_wall_s": round(tlc_wall, 1),
             "exhaustive": not machinery,
+            "tlc_generator_outputs_reused": sum(1 for x in results if getattr(x[2], "cached", False)),
+            "tlc_generator_note": "generator output (a function of spec/ and the constants only) is kept in out/tlccache and shared between "
+                                  "checks that replay the same records; states/transitions are those of the TLC run that produced the records; "
+                                  "the replay into /repo's code is done afresh by every run",
             "tlc_jobs": [{"family": f, "module": m, **c} for f, c, m, _ in jobs],
         }
         return vlib.finish(prop, tier, level, coverage, known_hit, violations, t0, kf,
@@ -384,9 +387,9 @@ def pike_stage(prop, tier, max_outputs=2):
 
 def refequiv_stage(tier):
     q = tier == "quick"
-    fam = ["CAP", "G2a", "G2m", "REV"][vlib.seed() % 4]
+    fam = ["CAP", "G2a", "G2m", "REV"][vlib.shard_seed() % 4]
     nsh = {"CAP": 4, "G2a": 64, "G2m": 64, "REV": 8}[fam]
-    return tlc_model_stage("RefEquiv", "MC_RefEquiv", {"Family": fam, "Shard": vlib.seed() % min(nsh, 4), "NShards": nsh * (2 if q else 1),
+    return tlc_model_stage("RefEquiv", "MC_RefEquiv", {"Family": fam, "Shard": vlib.shard_seed() % min(nsh, 4), "NShards": nsh * (2 if q else 1),
                                                         "Budget": 40 if q else 90, "LCap": 3},
                            "SPECIFICATION Spec\nINVARIANT Equivalent\n", workers=6)
 
@@ -412,7 +415,7 @@ def c_search(prop, tier):
 
 def c08(prop, tier):
     q = tier == "quick"
-    exp = ("EXPAND", {"MaxLen": 4 if q else 5, "Shard": vlib.seed() % (4 if q else 2), "NShards": 4 if q else 2},
+    exp = ("EXPAND", {"MaxLen": 4 if q else 5, "Shard": vlib.shard_seed() % (4 if q else 2), "NShards": 4 if q else 2},
            "MC_Expand", "expand")
     return run_search_family(prop, tier, prop, module="MC_Replace", subcmd="replace", extra_jobs=[exp],
                              families=["CAP", "G2a", "G2x", "LIT", "CC", "U8", "G2m"], budget_scale=0.5,
@@ -424,9 +427,9 @@ def c08(prop, tier):
 
 def lazydfa_stages(tier):
     q = tier == "quick"
-    fam = ["LIT", "G2a", "CAP", "CC"][vlib.seed() % 4]
+    fam = ["LIT", "G2a", "CAP", "CC"][vlib.shard_seed() % 4]
     nsh = {"LIT": 8, "G2a": 64, "CAP": 4, "CC": 16}[fam]
-    consts = {"Family": fam, "Shard": vlib.seed() % min(nsh, 4), "NShards": nsh * (2 if q else 1), "Budget": 40 if q else 90, "LCap": 4,
+    consts = {"Family": fam, "Shard": vlib.shard_seed() % min(nsh, 4), "NShards": nsh * (2 if q else 1), "Budget": 40 if q else 90, "LCap": 4,
               "Caps": {2, 3, 100}, "ClearBudgets": {0, 1, 3}}
     cfg = "SPECIFICATION Spec\nINVARIANT Exact\n"
     return [tlc_model_stage("LazyDFA_keep", "MC_LazyDFA", dict(consts, Resume="keep"), cfg, workers=6),
@@ -438,7 +441,7 @@ def lazydfa_stages(tier):
 def onepass_jobs(tier):
     """MC_OnePass generator jobs (model verdict + model search result per haystack -> real Build / Search)."""
     q = tier == "quick"
-    s = vlib.seed()
+    s = vlib.shard_seed()
     jobs = []
     for fam, nsh in (("OP", 4), ("CAP", 4), ("ANC", 4)):
         for sh in ([s % 4] if q else range(4)):
@@ -541,7 +544,7 @@ def c12(prop, tier):
 
 def c09(prop, tier):
     q = tier == "quick"
-    gen = ("COMPILE", {"MaxLen": 3 if q else 4, "Shard": vlib.seed() % 2 if q else vlib.seed() % 4, "NShards": 2 if q else 4},
+    gen = ("COMPILE", {"MaxLen": 3 if q else 4, "Shard": vlib.shard_seed() % 2 if q else vlib.shard_seed() % 4, "NShards": 2 if q else 4},
            "MC_Compile", "compile")
     return run_search_family(prop, tier, prop, extra_jobs=[gen], stages=[object_stage(prop, tier)], budget_scale=0.1,
                              rule="TLC enumerates every string of <= MaxLen tokens over a 26-token alphabet of syntax characters plus limit families "
@@ -581,7 +584,7 @@ def c15(prop, tier):
         if p.returncode != 0:
             raise Machinery("nfaexport: " + p.stderr[-500:])
         nsh = 3 if q else 1
-        shard = vlib.seed() % nsh
+        shard = vlib.shard_seed() % nsh
         chk_out = os.path.join(work, "check.out")
         scratch = tempfile.mkdtemp(prefix="vtlc_")
         try:
@@ -699,7 +702,7 @@ def c06(prop, tier):
         rp, fp = os.path.join(work, "pool.json"), os.path.join(work, "pool_fail.ndjson")
         stride = 7 if q else 3
         p = subprocess.run([vh, "poolsched", "-in", sched_out, "-out", tr, "-report", rp, "-fail", fp, "-goroutines", str(len(gs)),
-                            "-calls", str(calls), "-stride", str(stride), "-offset", str(vlib.seed() % stride)],
+                            "-calls", str(calls), "-stride", str(stride), "-offset", str(vlib.shard_seed() % stride)],
                            capture_output=True, text=True, timeout=2400)
         if p.returncode != 0:
             raise Machinery("poolsched: " + p.stderr[-600:])
@@ -851,7 +854,7 @@ def c20(prop, tier):
                              invariants=["Bounded"], prop=prop, what="visited table: need <= cap, live length <= capacity"))
         # allocations: patterns of the universe (one small TLC generator run) + the representatives, WITHOUT the verif tag
         gen = os.path.join(work, "gen.out")
-        r = vlib.run_tlc("MC_Search", {"Family": "REV" if vlib.seed() % 2 else "CC", "Shard": vlib.seed() % 4, "NShards": 8 if q else 4,
+        r = vlib.run_tlc("MC_Search", {"Family": "REV" if vlib.shard_seed() % 2 else "CC", "Shard": vlib.shard_seed() % 4, "NShards": 8 if q else 4,
                                        "Budget": 20, "LCap": 3, "WithAt": False}, SEARCH_CFG, gen, workers=4, timeout=900)
         if r.error or r.violation:
             machinery.append(f"MC_Search for allocs: {r.error or r.violation}")
@@ -1043,7 +1046,7 @@ def masked_replay_check(prop, tier, jobs, subcmd, sub_args, rule, level="model_c
 
 def c18(prop, tier):
     q = tier == "quick"
-    s = vlib.seed()
+    s = vlib.shard_seed()
     tm = {"scalar", "overlap"}
     jobs = [("w2", "MC_Simd", {"W": 2, "MaxHits": 2 if q else 3, "TailModes": tm, "Shard": s % 4 if q else 0, "NShards": 4 if q else 1})]
     jobs += [(f"w4_{k}", "MC_Simd", {"W": 4, "MaxHits": 2, "TailModes": tm, "Shard": k, "NShards": 32 if q else 8}) for k in ([s % 32] if q else range(8))]
@@ -1062,7 +1065,7 @@ def c18(prop, tier):
 
 def c07(prop, tier):
     q = tier == "quick"
-    gen = ("COMPILE", {"MaxLen": 3 if q else 4, "Shard": (vlib.seed() + 1) % 2 if q else (vlib.seed() + 1) % 4, "NShards": 2 if q else 4},
+    gen = ("COMPILE", {"MaxLen": 3 if q else 4, "Shard": (vlib.shard_seed() + 1) % 2 if q else (vlib.shard_seed() + 1) % 4, "NShards": 2 if q else 4},
            "MC_Compile", "compile")
     return run_search_family(prop, tier, prop, subcmd="wellformed", extra_jobs=[gen], budget_scale=0.35 if q else 0.5,
                              rule="(i) every TLC-enumerated pattern string and limit family offered to Compile: a value or an error, never a panic or a "
@@ -1106,7 +1109,7 @@ def c17(prop, tier):
         scratch = tempfile.mkdtemp(prefix="vtlc_")
         try:
             shutil.copy(lit, os.path.join(scratch, "literals.ndjson"))
-            r1 = vlib.run_tlc("MC_Literal", {"LitFile": "literals.ndjson", "Shard": vlib.seed() % 2 if q else 0, "NShards": 2 if q else 1,
+            r1 = vlib.run_tlc("MC_Literal", {"LitFile": "literals.ndjson", "Shard": vlib.shard_seed() % 2 if q else 0, "NShards": 2 if q else 1,
                                              "Budget": 3000 if q else 6000, "LCap": 6 if q else 7, "XLen": 2}, SEARCH_CFG, chk,
                               workers=16, timeout=3000, heap="12g", scratch=scratch)
         finally:
@@ -1152,10 +1155,10 @@ def c16(prop, tier):
     try:
         machinery = []
         nsh = 32 if q else 1
-        base = {"Shard": vlib.seed() % nsh, "NShards": nsh, "NAlpha": 3, "MaxHay": 5, "MaxHayBig": 4 if q else 5, "Quads": 1,
+        base = {"Shard": vlib.shard_seed() % nsh, "NShards": nsh, "NAlpha": 3, "MaxHay": 5, "MaxHayBig": 4 if q else 5, "Quads": 1,
                 "TrLen": 6 if q else 8, "LoopN": 5 if q else 6, "LoopShapes": {"unanch", "anch", "digitrun", "trk"}}
         tsh = 1024 if q else 16
-        teddy = dict(base, Phase="teddy", NShards=tsh, Shard=vlib.seed() % tsh, MaxHayBig=4)
+        teddy = dict(base, Phase="teddy", NShards=tsh, Shard=vlib.shard_seed() % tsh, MaxHayBig=4)
         S = "SPECIFICATION Spec\n"
         runs = [  # (name, constants, invariants, workers, expect_violation)
             ("gen", dict(base, Phase="gen"), "INVARIANT Emit\n", 16, False),
